@@ -51,7 +51,10 @@ class VirtualFile(object):
 
         try:
             cassette_file = CassetteFile(buffer=self.source_file.get_buffer())
-            return cassette_file.list_files(), VirtualFileType.CASSETTE
+            coco_files = cassette_file.list_files()
+            # Bytes in which no file can be found are not a cassette image (only an empty file is an empty tape)
+            if coco_files or not self.source_file.get_buffer():
+                return coco_files, VirtualFileType.CASSETTE
         except VirtualFileValidationError as error:
             pass
 
